@@ -3,7 +3,7 @@
 use crate::conv::to_val;
 use crate::core::{Rng, Tape, World, YieldCfg, execute};
 use crate::net::{Chunking, EndCfg};
-use crate::nodeenv::{PEER_NAME, install_conforming_peer, start_node};
+use crate::nodeenv::{OTHER_ADDR, OTHER_NAME, PEER_NAME, install_conforming_peer, install_conforming_peer_at, start_node};
 use crate::peer::{NetCfg, OTP_FLAGS_BASE, ServerConn, read_frame4};
 use crate::runner::{Info, RunOutput, Scenario, Tier, finish};
 use crate::wire::{self, RecvCache, Val};
@@ -79,6 +79,10 @@ struct Plan {
     legacy_ids: bool,
     #[serde(default)]
     salt: u64,
+    /// > 0: the node is connected to a second, well-behaved node as well, and one more task makes this
+    /// many calls to it while the callers above are busy with the first
+    #[serde(default)]
+    other_calls: u32,
 }
 
 pub struct C17;
@@ -143,6 +147,7 @@ impl Scenario for C17 {
             creation: *r.pick(&[3u32, 3, 1, 6, 255, 70_000]),
             legacy_ids: r.chance(1, 4),
             salt: r.next_u64(),
+            other_calls: 0,
         };
         let m = margin_ms(&p);
         for _ in 0..n_callers {
@@ -189,6 +194,9 @@ impl Scenario for C17 {
             p.conn_fault_at = if p.conn_fault == "write_error" { r.below(600) } else { r.below(6) };
             p.conn_fault_delay_ms = r.below(50);
         }
+        if p.calls_before_start == 0 && r.chance(1, 4) {
+            p.other_calls = r.range(2, 8) as u32;
+        }
         serde_json::to_value(p).unwrap()
     }
 
@@ -217,7 +225,7 @@ impl Scenario for C17 {
             components_stubbed: &["TCP (SimNet)", "EPMD (stub)", "remote node: handshake acceptor + rex model with an independent frame/term reader"],
             assumptions: &["the peer ticks every 5 simulated seconds so that the receiver's 10 s read timeout (a C19 question) does not interfere", "RpcTimeout is judged inadmissible only if a reply addressed to the call was written by the peer at least `margin` before the call returned (margin = injected network/yield delay bound)"],
             fault_prefixes: &["fault.", "net."],
-            expected_probes: &["probe.c17.ok", "probe.c17.ok_with_unbounded_timeout", "probe.c17.unencodable_request_rejected", "probe.c17.old_reply_sent_again", "probe.c17.long_history", "probe.c17.reply_with_legacy_pid_tag", "probe.c17.timeout", "probe.c17.reply_after_timeout_dropped", "probe.c17.duplicate_reply_dropped", "probe.c17.unknown_pid_reply_dropped", "probe.c17.not_connected", "probe.c17.send_failed", "probe.c17.liveness_probe_ok", "probe.c17.counter_moved_to_wrap", "probe.c17.calls_before_start"],
+            expected_probes: &["probe.c17.ok", "probe.c17.ok_with_unbounded_timeout", "probe.c17.unencodable_request_rejected", "probe.c17.old_reply_sent_again", "probe.c17.long_history", "probe.c17.reply_with_legacy_pid_tag", "probe.c17.timeout", "probe.c17.reply_after_timeout_dropped", "probe.c17.duplicate_reply_dropped", "probe.c17.unknown_pid_reply_dropped", "probe.c17.not_connected", "probe.c17.send_failed", "probe.c17.liveness_probe_ok", "probe.c17.counter_moved_to_wrap", "probe.c17.calls_before_start", "probe.c17.call_to_a_second_node_answered"],
         }
     }
 }
@@ -486,6 +494,13 @@ async fn scenario(w: &Arc<World>, p: &Plan) {
             w.violation("HARNESS-setup", format!("connect to the conforming peer failed: {}", e));
             return;
         }
+        if p.other_calls > 0 {
+            install_conforming_peer_at(w, OTHER_ADDR, OTHER_NAME, NetCfg { client: p.client.clone(), server: p.server.clone(), cap: 0 }, OTP_FLAGS_BASE, move |w, conn, _seen| Box::pin(other_rex(w, conn)));
+            if let Err(e) = node.connect(OTHER_NAME).await {
+                w.violation("HARNESS-setup", format!("connect to the second node failed: {}", e));
+                return;
+            }
+        }
         node
     };
     if p.calls_before_start > 0 {
@@ -518,6 +533,23 @@ async fn scenario(w: &Arc<World>, p: &Plan) {
                 w.ev(format!("connection mutex held for {}ms from {}ms", dur, World::now_ms()));
                 tokio::time::sleep(Duration::from_millis(dur)).await;
                 drop(guard);
+            }
+        }));
+    }
+    if p.other_calls > 0 {
+        // calls to the second node: its stream has no faults and it answers every call at once, so each of
+        // them returns its own answer whatever happens on the first connection meanwhile
+        let (node, w, n, m) = (node.clone(), w.clone(), p.other_calls, margin_ms(&p));
+        tasks.push(tokio::spawn(async move {
+            for k in 0..n {
+                tokio::time::sleep(Duration::from_millis(u64::from(w.draw(30)))).await;
+                let r = node.rpc_call_raw_with_timeout(OTHER_NAME, "m", "f", vec![OwnedTerm::Integer(777), OwnedTerm::Integer(i64::from(k))], Duration::from_millis(20_000 + 4 * m)).await;
+                let want = Val::tuple(vec![Val::atom("rex"), Val::tuple(vec![Val::atom("other_echo"), Val::int(i128::from(k))])]);
+                match r {
+                    Ok(v) if to_val(&v) == want => w.stat("probe.c17.call_to_a_second_node_answered"),
+                    Ok(v) => w.violation("wrong-reply", format!("call {} to the second node returned {} instead of that node's answer to it", k, to_val(&v).short())),
+                    Err(e) => w.violation("unexpected-error", format!("call {} to the second node (intact stream, answers at once) failed with {}", k, classify(&e))),
+                }
             }
         }));
     }
@@ -587,6 +619,35 @@ async fn scenario(w: &Arc<World>, p: &Plan) {
         }
         if node.verif_pending_rpcs_len() != 0 {
             w.violation("rpc-entry-leaked", "entry left after the liveness probe".to_string());
+        }
+    }
+}
+
+/// The second node: answers every call with {rex, {other_echo, K}} (K = the call's second argument).
+async fn other_rex(w: Arc<World>, conn: ServerConn) {
+    let ServerConn { mut read, mut write, .. } = conn;
+    let mut cache = RecvCache::default();
+    loop {
+        let Ok(body) = read_frame4(&mut read).await else { break };
+        if body.is_empty() {
+            continue;
+        }
+        let Ok(msg) = wire::parse_dist_frame(&body, &mut cache) else { continue };
+        let Some(c) = msg.control.as_tuple() else { continue };
+        if c.len() == 4 && c[0].as_i64() == Some(6) {
+            let args = msg.payload.as_ref().and_then(|p| p.as_tuple()).and_then(|t| t.get(1)).and_then(|c| c.as_tuple()).and_then(|c| c.get(3)).cloned();
+            let k = match &args {
+                Some(Val::List(els, _)) => els.get(1).cloned().unwrap_or(Val::Nil),
+                _ => Val::Nil,
+            };
+            let d = w.draw(20);
+            if d > 0 {
+                tokio::time::sleep(Duration::from_millis(u64::from(d))).await;
+            }
+            let pl = Val::tuple(vec![Val::atom("rex"), Val::tuple(vec![Val::atom("other_echo"), k])]);
+            if write.write_all(&wire::frame4(&wire::pass_through(&Val::tuple(vec![Val::int(2), Val::atom(""), c[1].clone()]), Some(&pl)))).await.is_err() {
+                break;
+            }
         }
     }
 }
